@@ -1,10 +1,23 @@
 import AgdbStorage.Model.StorageSpec
+import AgdbStorage.Lemmas.AllocReach
+import AgdbStorage.Lemmas.AllocWfAll
+import AgdbStorage.Lemmas.AllocUnbounded
 /-
 C04 — Stored data survives any pattern of space reuse and defragmentation.
 
 Full-strength statements over every reachable state of the record-allocator model
 (`Model/Storage.lean`), as a refinement to the map `index ↦ bytes` (`Model/StorageSpec.lean`).
-Statements not yet proved are kept here as `def …_statement : Prop`; proved ones are theorems.
+
+Explicit `u64` hypothesis.  The model computes with unbounded naturals while the file format stores
+indices and sizes as `u64` (`le8` wraps).  Decoding a header (`reopen`) is therefore only faithful
+when the file length and the slot-table length fit `u64` — `Fits s` (`Lemmas/AllocDefs.lean`):
+`s.data.length < 2^64 ∧ s.records.recs.length ≤ 2^64`, which always holds in reality.
+`ReachableF` is `Reachable` where, in addition, every `reopen` of the history happens in a state
+with `Fits` (`ReachableF.reachable : ReachableF s → Reachable s`).  No other operation needs a bound.
+
+The representation invariant behind all theorems is `SInv` (`Lemmas/AllocDefs.lean`): slot table
+well formed, the blocks (live records and free regions) tile `[24, len)` without overlap, every block
+header is on disk; `ReachableF.inv : ReachableF s → SInv s`.
 -/
 namespace AgdbStorage
 
@@ -12,49 +25,189 @@ namespace AgdbStorage
 specification step on the observable map, fails exactly when the specification says so, and an
 `insert` returns an index that was not readable before. -/
 def C04_refines_statement : Prop :=
-  ∀ (s : Storage) (op : SOp), Reachable s → (op = .reopen → s.txn = 0) →
+  ∀ (s : Storage) (op : SOp), ReachableF s → (op = .reopen → s.txn = 0 ∧ Fits s) →
     let r := s.step op
     r.1.abs = specStep s.abs op r.2 ∧
     ((∃ e, r.2 = .error e) ↔ specFails s.abs s.txn op) ∧
     (∀ b i, op = .insert b → r.2 = .ok (some i) → s.abs i = none ∧ i ≠ 0)
 
+theorem C04_refines : C04_refines_statement := by
+  intro s op hr hop
+  have h := stepOK allSpecs s hr.inv op (fun e => (hop e).2)
+  exact ⟨h.abs, h.fails, h.fresh⟩
+
 /-- Every live value reads back exactly as last written, after any history. -/
 def C04_read_back_statement : Prop :=
-  ∀ (s : Storage) (i : Nat) (b : Bytes), Reachable s →
+  ∀ (s : Storage) (i : Nat) (b : Bytes), ReachableF s →
     ((s.step (.insert b)).2 = .ok (some i) → (s.step (.insert b)).1.abs i = some b) ∧
     (s.abs i ≠ none → (s.step (.replace i b)).1.abs i = some b)
 
+theorem C04_read_back : C04_read_back_statement := by
+  intro s i b hr
+  constructor
+  · intro hok
+    have h := stepOK allSpecs s hr.inv (.insert b) (fun e => by cases e)
+    rw [h.abs, hok]
+    show Spec.set s.abs i (some b) i = _
+    simp [Spec.set]
+  · intro hne
+    have h := stepOK allSpecs s hr.inv (.replace i b) (fun e => by cases e)
+    rw [h.abs]
+    cases hres : (s.step (.replace i b)).2 with
+    | error e =>
+      have : specFails s.abs s.txn (.replace i b) := h.fails.mp ⟨e, hres⟩
+      exact absurd this hne
+    | ok res =>
+      show Spec.set s.abs i (some b) i = _
+      simp [Spec.set]
+
 /-- Deleted values are no longer readable. -/
 def C04_removed_unreadable_statement : Prop :=
-  ∀ (s : Storage) (i : Nat), Reachable s → (s.step (.remove i)).1.abs i = none
+  ∀ (s : Storage) (i : Nat), ReachableF s → (s.step (.remove i)).1.abs i = none
+
+theorem C04_removed_unreadable : C04_removed_unreadable_statement := by
+  intro s i hr
+  have h := stepOK allSpecs s hr.inv (.remove i) (fun e => by cases e)
+  rw [h.abs]
+  cases hres : (s.step (.remove i)).2 with
+  | error e => exact h.fails.mp ⟨e, hres⟩
+  | ok res =>
+    show Spec.set s.abs i none i = _
+    simp [Spec.set]
 
 /-- Operations on one index never change another index's value (space reuse is invisible). -/
 def C04_frame_statement : Prop :=
-  ∀ (s : Storage) (op : SOp) (j : Nat), Reachable s → (op = .reopen → s.txn = 0) →
+  ∀ (s : Storage) (op : SOp) (j : Nat), ReachableF s → (op = .reopen → s.txn = 0 ∧ Fits s) →
     (∀ b, op ≠ .insert b) →
     (match op with
       | .insertAt i _ _ | .moveAt i _ _ _ | .remove i | .replace i _ | .resize i _ => j ≠ i
       | _ => True) →
     (s.step op).1.abs j = s.abs j
 
+theorem Spec.set_ne (m : Spec) (i j : Nat) (v : Option Bytes) (h : j ≠ i) : Spec.set m i v j = m j := by
+  simp [Spec.set, h]
+
+theorem C04_frame : C04_frame_statement := by
+  intro s op j hr hop hni hj
+  have h := stepOK allSpecs s hr.inv op (fun e => (hop e).2)
+  rw [h.abs]
+  cases (s.step op).2 with
+  | error e => rfl
+  | ok res =>
+    cases op with
+    | insert b => exact absurd rfl (hni b)
+    | insertAt i off b =>
+      dsimp only [specStep]
+      cases s.abs i with
+      | none => rfl
+      | some v => exact Spec.set_ne _ _ _ _ hj
+    | moveAt i f t n =>
+      dsimp only [specStep]
+      cases s.abs i with
+      | none => rfl
+      | some v => exact Spec.set_ne _ _ _ _ hj
+    | remove i => exact Spec.set_ne _ _ _ _ hj
+    | replace i b => exact Spec.set_ne _ _ _ _ hj
+    | resize i n =>
+      dsimp only [specStep]
+      cases s.abs i with
+      | none => rfl
+      | some v => exact Spec.set_ne _ _ _ _ hj
+    | optimize => rfl
+    | reopen => rfl
+    | begin => rfl
+    | commit id => rfl
+
 /-- Defragmenting preserves every value and leaves no unused space:
 `len = 24 + Σ (16 + size)` over live values, no free regions. -/
 def C04_optimize_statement : Prop :=
-  ∀ (s : Storage), Reachable s →
+  ∀ (s : Storage), ReachableF s →
     let s' := (s.step .optimize).1
     s'.abs = s.abs ∧ s'.records.free = [] ∧
     s'.len = 24 + ((s'.records.recs.filter s'.records.isValid).map fun r => 16 + r.size).sum
 
-/-- Reopening (re-reading the record table from the bytes) preserves every value. -/
+theorem C04_optimize : C04_optimize_statement := by
+  intro s hr
+  have h := stepOK allSpecs s hr.inv .optimize (fun e => by cases e)
+  obtain ⟨o1, _, _, _, _, o6, o7⟩ := optimize_spec s hr.inv
+  refine ⟨?_, o6, o7⟩
+  rw [h.abs]
+  cases (s.step .optimize).2 <;> rfl
+
+/-- Reopening (re-reading the record table from the bytes) succeeds and preserves every value. -/
 def C04_reopen_statement : Prop :=
+  ∀ (s : Storage), ReachableF s → s.txn = 0 → Fits s →
+    (s.step .reopen).2 = .ok none ∧ (s.step .reopen).1.abs = s.abs
+
+theorem C04_reopen : C04_reopen_statement := by
+  intro s hr _ hf
+  obtain ⟨h, hok⟩ := stepOK_reopen allSpecs s hr.inv hf
+  refine ⟨hok, ?_⟩
+  rw [h.abs, hok]
+  rfl
+
+/-- The reopen statement as first written — plain `Reachable`, no `u64` hypothesis.  It is FALSE of
+the model (not of the Rust code): the model's naturals are unbounded, so a value of `2^64` bytes can
+be inserted, its header stores the size modulo `2^64`, and after `reopen` no value can be that long.
+This is why `Fits` / `ReachableF` appear in the theorems above. -/
+def C04_reopen_unbounded_statement : Prop :=
   ∀ (s : Storage), Reachable s → s.txn = 0 →
     (s.step .reopen).2 = .ok none ∧ (s.step .reopen).1.abs = s.abs
 
+theorem C04_reopen_unbounded_counterexample : ¬ C04_reopen_unbounded_statement :=
+  reopen_unbounded_counterexample
+
 /-- Link to C01: every `StorageData::write` call a storage operation issues lies inside the file
-or starts exactly at its end (so the C01 theorem applies to every history of storage operations),
-and `flush` is issued exactly when the outermost transaction completes. -/
+or starts exactly at its end, and every offset fits `u64` (`wfOps`, `FsOp.wf` of `Model/Wal.lean`),
+so the C01 theorem applies to every history of storage operations.  Explicit `u64` hypothesis: the
+file may grow by at most `2 * op.size + 32` bytes, where `op.size` (`SOp.size`, `Lemmas/AllocWf.lean`)
+is the length of the value written (`insert`, `replace`: `|b|`; `insertAt`: `off + |b|`; `moveAt`:
+`to + n`; `resize`: `n`; otherwise 0).  (That `flush` is issued exactly when the outermost
+transaction completes is `C01b_flush_outermost`, `Props/C01b.lean`.) -/
 def C04_calls_wellformed_statement : Prop :=
-  ∀ (s : Storage) (op : SOp), Reachable s → op ≠ .reopen →
-    wfOps s.data ((s.step op).1.trace.drop s.trace.length) ∨ s.len ≥ 2 ^ 64
+  ∀ (s : Storage) (op : SOp), ReachableF s → op ≠ .reopen →
+    s.len + 2 * op.size + 32 < 2 ^ 64 →
+    wfOps s.data ((s.step op).1.trace.drop s.trace.length)
+
+theorem C04_calls_wellformed : C04_calls_wellformed_statement :=
+  fun _ op hr hop hb => hr.step_wf op hop hb
+
+/-- The representation invariant holds after any history (exported for other properties). -/
+theorem C04_invariant : ∀ s, ReachableF s → SInv s := fun _ h => h.inv
+
+/-! ### non-vacuity -/
+
+/-- a non-trivial reachable state: two values inserted, the first removed (a free region exists) -/
+def exState : Storage :=
+  (((Storage.create.step (.insert [1, 2, 3])).1.step (.insert [4, 5])).1.step (.remove 1)).1
+
+theorem exState_reachable : ReachableF exState :=
+  .step _ _ (.step _ _ (.step _ _ .create (fun e => by cases e)) (fun e => by cases e))
+    (fun e => by cases e)
+
+example : exState.abs 2 = some [4, 5] ∧ exState.abs 1 = none ∧ exState.records.free ≠ [] := by
+  decide
+
+example : exState.txn = 0 ∧ Fits exState := by
+  refine ⟨rfl, ?_, ?_⟩
+  · show exState.data.length < 2 ^ 64; decide
+  · show exState.records.recs.length ≤ 2 ^ 64; decide
+
+/-- the hypotheses of `C04_refines` / `C04_frame` are satisfiable (including for `reopen`) -/
+example : ∃ s op, ReachableF s ∧ (op = SOp.reopen → s.txn = 0 ∧ Fits s) ∧ op = .reopen :=
+  ⟨exState, .reopen, exState_reachable, fun _ => ⟨rfl, by
+    refine ⟨?_, ?_⟩
+    · show exState.data.length < 2 ^ 64; decide
+    · show exState.records.recs.length ≤ 2 ^ 64; decide⟩, rfl⟩
+
+/-- `read_back`: an insert into the example state reuses the free region and slot 1 -/
+example : (exState.step (.insert [9])).2 = .ok (some 1) ∧
+    (exState.step (.insert [9])).1.abs 1 = some [9] := ⟨rfl, by decide⟩
+
+example : exState.abs 2 ≠ none := by decide
+
+/-- `calls_wellformed`: the bound is satisfiable and the operation issues calls (2 writes + flush) -/
+example : exState.len + 2 * (SOp.insert [9]).size + 32 < 2 ^ 64 ∧
+    ((exState.step (.insert [9])).1.trace.drop exState.trace.length).length = 3 := by decide
 
 end AgdbStorage
